@@ -256,6 +256,7 @@ class AI:
         self.notes = []
         self.blocks_seen = set()
         self.pinned = ()        # sym ids whose refinements are never garbage-collected
+        self.deps = {}          # result sym of an opaque call -> sym ids its arguments mention (may-depend, per call site)
 
     # ------------------------------------------------------------------ values
     def resolve(self, st, v):
@@ -296,6 +297,8 @@ class AI:
             return v
         v = st.ext.get(cell[1])
         if v is None:
+            if cell[1].startswith("str:"):
+                return ("str", cell[1][4:])      # string literals are their own (constant) pointee
             v = ("sym", cell[1] + "*")
         return v
 
@@ -370,7 +373,6 @@ class AI:
                     cell, path = ("X", v[1]), ()
                 elif v[0] == "str":
                     cname = "str:" + v[1]
-                    st.ext[cname] = v
                     cell, path = ("X", cname), ()
                 elif v[0] == "enum" and v[3]:
                     # Box/Rc-like wrappers built concretely: treat first field as the pointee holder
@@ -882,7 +884,12 @@ class AI:
                         if rs is not None and len(rs) == 1:
                             outs.append((s2, next(iter(rs))))
                         else:
-                            outs.append((s2, self.sym(s2, self.site(s2, ":map_or"))))
+                            nm = self.site(s2, ":map_or")
+                            dep = self.deps.setdefault(nm, set())
+                            for v in args:
+                                self._collect_syms(s2, v, dep, 0)
+                            self._collect_syms(s2, ev, dep, 0)
+                            outs.append((s2, self.sym(s2, nm)))
                 return outs
         if path in ("std::vec::Vec::len", "core::slice::<impl [T]>::len", "std::string::String::len", "core::str::<impl str>::len",
                     "std::collections::VecDeque::len") and args:
@@ -907,6 +914,23 @@ class AI:
                 return [(st, ("bool", eq if decl.endswith("eq") else not eq))]
         return None
 
+    def _collect_syms(self, st, v, acc, depth):
+        if depth > 5 or not isinstance(v, tuple) or not v:
+            return
+        v = self.resolve(st, v) if v[0] == "sym" else v
+        if v[0] == "sym":
+            acc.add(v[1])
+            return
+        if v[0] == "ref":
+            acc.add("cell:%s" % (v[1],))
+            if v[1][0] == "X":
+                acc.add(v[1][1])
+            self._collect_syms(st, self.read_at(st, v[1], v[2]), acc, depth + 1)
+            return
+        for x in v:
+            if isinstance(x, tuple):
+                self._collect_syms(st, x, acc, depth + 1)
+
     def call_value(self, st, fv, args):
         """abstractly evaluate a closure / fn value on args in a nested interpreter; -> set of deep results"""
         fv = self.resolve(st, fv)
@@ -914,6 +938,7 @@ class AI:
             return None
         fn = self.cr.fns[fv[1]]
         sub = AI(self.cr, Hooks(), max_states=20000, max_depth=4)
+        sub.deps = self.deps
         cargs = list(args)
         ext = dict(st.ext)
         if fn["kind"] == "closure":
@@ -929,7 +954,16 @@ class AI:
             sub.run(fv[1], args=cargs, ext=ext)
         except Undecided:
             return None
-        return set(v for v, m, t in sub.returns)
+        out = set(v for v, m, t in sub.returns)
+        argsyms = set()
+        for v in args:
+            self._collect_syms(st, v, argsyms, 0)
+        for v in out:
+            rs = set()
+            self._collect_syms(st, v, rs, 0)
+            for r in rs:
+                self.deps.setdefault(r, set()).update(argsyms)
+        return out
 
     def len_name(self, st, v):
         """stable name for the length of the container a pointer chain leads to (named by the container's value identity)"""
@@ -1083,6 +1117,9 @@ class AI:
                     s2.frames.append(nf)
                     return [s2]
         # 4. opaque
+        dep = self.deps.setdefault(site, set())
+        for v in args:
+            self._collect_syms(st, v, dep, 0)
         self.havoc_mut_args(st, frame, term, args, site)
         s3 = finish(st, self.sym(st, site))
         return [s3] if s3 is not None else []
